@@ -10,6 +10,9 @@ CHECKS = {
     "C08": ("structural oracle over real patch plans on exhaustively enumerated + edit-script-derived layout pairs (tagged storage)",
             "Runs the real build_state_storage_patch_plan/apply_state_storage_patch_plan on every ordered pair of layouts up to a node bound and on edit-script pairs, and checks every clause of the property on the returned plan and on uniquely tagged migrated storage. Exhaustive within the bound, sampled beyond it; nothing is modelled.",
             "Trusts the harness' own prefix-sum layout walk and tree-inclusion checker; u64 sizes stand in for StateType.", "DESIGN.md §3 C08"),
+    "C14": ("oracle over real formatter runs: re-parse with the real parser, span-free AST comparison, comment-sequence and fixed-point checks on corpus files, their layout/comment mutations and generated programs at 24 (width, indent) configurations",
+            "Runs the real mimium_fmt::pretty_print_cst on every shipped .mmm file that parses, on layout/comment mutations of them and on generated programs with randomised layout, at widths {1,8,20,40,50,80,120,200} x indents {2,4,8}; the output is re-parsed with the real parse_program/parse_to_expr and compared with the input (parse errors, span-insensitive tree equality, comment texts in order), and formatted again (fixed point). Sampled, not exhaustive; nothing is modelled.",
+            "Trusts the harness' own tree view of Program/Expr/Type/Pattern (spans and interned ids dropped) and the real tokenizer for comment extraction. 23 known formatter defects (KNOWN_FINDINGS.txt, scope=sig) are matched by exact signature; at a configuration whose output does not parse the AST and idempotence clauses are not evaluated.", "DESIGN.md §3 C14"),
 }
 PENDING = {}
 
